@@ -440,63 +440,67 @@ def judge(route: str, v):
 
 # --------------------------------------------------------------------------- shrinking
 
-def shrink(v, fails):
-    """smaller in-domain value on which `fails` still holds (sub-values first, then characters)"""
+def _candidates(v):
+    """strictly smaller variants of a value, most aggressive first"""
+    if isinstance(v, str):
+        n = len(v)
+        if n > 1:
+            yield v[: n // 2]
+            yield v[n // 2:]
+            for i in range(n):
+                yield v[:i] + v[i + 1:]
+    elif isinstance(v, list):
+        for x in v:
+            yield x
+        if len(v) > 1:
+            yield v[: len(v) // 2]
+            yield v[len(v) // 2:]
+            for i in range(len(v)):
+                yield v[:i] + v[i + 1:]
+        for i, x in enumerate(v):
+            for c in _candidates(x):
+                yield v[:i] + [c] + v[i + 1:]
+    elif isinstance(v, dict):
+        items = list(v.items())
+        for k, x in items:
+            yield x
+        for k, x in items:
+            if len(items) > 1 or x != 0:
+                yield {k: 0}
+        if len(items) > 1:
+            for i in range(len(items)):
+                yield dict(items[:i] + items[i + 1:])
+        for i, (k, x) in enumerate(items):
+            for c in _candidates(x):
+                yield dict(items[:i] + [(k, c)] + items[i + 1:])
+            for c in _candidates(k):
+                if c not in v:
+                    yield dict(items[:i] + [(c, x)] + items[i + 1:])
 
-    def ok(x):
-        try:
-            return in_domain(x) and fails(x)
-        except Infra:
-            raise
-        except Exception:
-            return False
 
-    changed = True
-    while changed:
-        changed = False
-        if isinstance(v, list):
-            for x in v:
-                if ok(x):
-                    v, changed = x, True
-                    break
-            else:
-                if len(v) > 1:
-                    w = ddmin(v, lambda sub: ok(list(sub)))
-                    if len(w) < len(v):
-                        v, changed = list(w), True
-        elif isinstance(v, dict):
-            for k, x in v.items():
-                if ok(x):
-                    v, changed = x, True
-                    break
-                if ok({k: 0}):
-                    v, changed = {k: 0}, True
-                    break
-            else:
-                if len(v) > 1:
-                    items = ddmin(list(v.items()), lambda sub: ok(dict(sub)))
-                    if len(items) < len(v):
-                        v, changed = dict(items), True
-                if not changed and len(v) == 1:
-                    (k, x), = v.items()
-                    if x != 0 and not isinstance(x, (list, dict)) and ok({k: 0}):
-                        v, changed = {k: 0}, True
-                    elif len(k) > 1:
-                        ks = "".join(ddmin(list(k), lambda sub: ok({"".join(sub): x})))
-                        if len(ks) < len(k):
-                            v, changed = {ks: x}, True
-                    if not changed and isinstance(x, (list, dict, str)):
-                        sx = shrink(x, lambda y: fails({k: y}))
-                        if tcanon(sx) != tcanon(x) and ok({k: sx}):
-                            v, changed = {k: sx}, True
-        elif isinstance(v, str) and len(v) > 1:
-            s = "".join(ddmin(list(v), lambda sub: ok("".join(sub))))
-            if len(s) < len(v):
-                v, changed = s, True
-        if isinstance(v, list) and len(v) == 1 and not changed and isinstance(v[0], (list, dict, str)):
-            sx = shrink(v[0], lambda y: fails([y]))
-            if tcanon(sx) != tcanon(v[0]) and ok([sx]):
-                v, changed = [sx], True
+def shrink(v, fails, budget: int = 600):
+    """greedy descent to a smaller in-domain value on which `fails` still holds; every accepted step
+    strictly shortens the canonical text, and at most `budget` candidates are tried"""
+    tried = 0
+    improved = True
+    while improved and tried < budget:
+        improved = False
+        size = len(tcanon(v))
+        for c in _candidates(v):
+            if tried >= budget:
+                break
+            if len(tcanon(c)) >= size or not in_domain(c):
+                continue
+            tried += 1
+            try:
+                bad = fails(c)
+            except Infra:
+                raise
+            except Exception:
+                bad = False
+            if bad:
+                v, improved = c, True
+                break
     return v
 
 
@@ -611,10 +615,23 @@ def wireable(v) -> bool:
         return False
 
 
+MAX_VIOLATIONS = 8
+
+
+def _fresh(ck, route, small) -> bool:
+    """report each minimised witness once"""
+    seen = ck.__dict__.setdefault("seen_witnesses", set())
+    key = (route, tcanon(small))
+    if key in seen:
+        return False
+    seen.add(key)
+    return True
+
+
 def oracle_batch(ck, values, route="unit"):
-    """judge a batch of in-domain values on one route: all at once first, bisect on failure"""
+    """judge a batch of in-domain values on one route: all at once first, shrink on failure"""
     values = [v for v in values if in_domain(v)]
-    if not values:
+    if not values or getattr(ck, 'found_by_search', 0) >= MAX_VIOLATIONS:
         return
     bad = judge(route, values)
     ck.evaluated(len(values))
@@ -624,7 +641,10 @@ def oracle_batch(ck, values, route="unit"):
     def fails(sub):
         return judge(route, sub) is not None
 
-    small = shrink(values, fails)
+    small = shrink(ddmin(values, fails), fails)
+    ck.found_by_search = getattr(ck, 'found_by_search', 0) + 1
+    if not _fresh(ck, route, small):
+        return
     ck.violate({"route": route, "value": to_wire(small), "expected": tcanon(expected(small))}, judge(route, small) or bad)
 
 
@@ -668,47 +688,50 @@ def run(tier: str) -> int:
 
     # ---- (b) exact-text differential, and the model's own round trip on the same values
     r = rng("c11-text")
-    n_text = 6000 if quick else 200000
-    vals = []
-    for i in range(n_text):
-        v = gen_value(r, depth=r.choice([0, 0, 1, 2, 3]), allow_expr=True)
-        if wireable(v):
-            vals.append(v)
-    try:
-        answers = drv.ask([{"op": "enc", "v": to_wire(v)} for v in vals])
-    except Infra as e:
-        answers = [None] * len(vals)
-        ck.notes.append(f"model driver unavailable: {e}")
-        ck.build_ok = False
-    for v, ans in zip(vals, answers):
-        ck.evaluated()
-        mine = impl_text(v)
-        kind = type(v).__name__
-        ck.count(f"text:{kind}")
-        if isinstance(v, str):
-            ck.count("str:numeral" if NUMERAL.fullmatch(v) else "str:expr" if v.startswith("=") else
-                     "str:quote" if '"' in v else "str:backslash" if "\\" in v else
-                     "str:control" if any(ord(c) < 32 for c in v) else "str:other")
-            if any(c in v for c in '"\\\n\r\t') or not v.isascii():
-                ck.nontriv("t:" + v)
-        elif isinstance(v, (list, dict)) and v:
-            ck.nontriv("t:" + tcanon(v))
-        if ans is None:
-            continue
-        if "error" in ans:
-            ck.disagree({"v": to_wire(v)}, ans, mine, "driver-error")
-            continue
-        if ans["t"] != mine:
-            ck.disagree({"v": to_wire(v)}, ans["t"], mine, "encode_cel-text")
-        if not ans["toks"]:
-            ck.disagree({"v": to_wire(v)}, "token texts do not concatenate to the encoding", mine, "tokens-text")
-        if ans["noExpr"] and ans["parsed"] != ans["want"]:
-            ck.disagree({"v": to_wire(v)}, ans["parsed"], ans["want"], "model-roundtrip (theorem value_roundtrip)")
-        ck.sample({"value": to_wire(v), "encode_cel": mine})
+    n_text = 20000 if quick else 1000000
+    done = 0
+    while done < n_text:
+        vals = []
+        for i in range(min(50000, n_text - done)):
+            v = gen_value(r, depth=r.choice([0, 0, 1, 2, 3]), allow_expr=True)
+            if wireable(v):
+                vals.append(v)
+        done += 50000
+        try:
+            answers = drv.ask([{"op": "enc", "v": to_wire(v)} for v in vals])
+        except Infra as e:
+            answers = [None] * len(vals)
+            ck.notes.append(f"model driver unavailable: {e}")
+            ck.build_ok = False
+        for v, ans in zip(vals, answers):
+            ck.evaluated()
+            mine = impl_text(v)
+            kind = type(v).__name__
+            ck.count(f"text:{kind}")
+            if isinstance(v, str):
+                ck.count("str:numeral" if NUMERAL.fullmatch(v) else "str:expr" if v.startswith("=") else
+                         "str:quote" if '"' in v else "str:backslash" if "\\" in v else
+                         "str:control" if any(ord(c) < 32 for c in v) else "str:other")
+                if any(c in v for c in '"\\\n\r\t') or not v.isascii():
+                    ck.nontriv("t:" + v)
+            elif isinstance(v, (list, dict)) and v:
+                ck.nontriv("t:" + tcanon(v))
+            if ans is None:
+                continue
+            if "error" in ans:
+                ck.disagree({"v": to_wire(v)}, ans, mine, "driver-error")
+                continue
+            if ans["t"] != mine:
+                ck.disagree({"v": to_wire(v)}, ans["t"], mine, "encode_cel-text")
+            if not ans["toks"]:
+                ck.disagree({"v": to_wire(v)}, "token texts do not concatenate to the encoding", mine, "tokens-text")
+            if ans["noExpr"] and ans["parsed"] != ans["want"]:
+                ck.disagree({"v": to_wire(v)}, ans["parsed"], ans["want"], "model-roundtrip (theorem value_roundtrip)")
+            ck.sample({"value": to_wire(v), "encode_cel": mine})
 
     # ---- (c) the modelled third-party part: celpy's literal lexer vs lexString / lexNumber
     r = rng("c11-lex")
-    n_lex = 2500 if quick else 60000
+    n_lex = 8000 if quick else 120000
     strs = [gen_string(r) for _ in range(n_lex)]
     strs = [s for s in strs if wireable(s)]
     texts = [gen_literal_text(r) if r.random() < 0.7 else gen_number_text(r) for _ in range(n_lex // 2)]
@@ -776,7 +799,7 @@ def search(ck, quick_budget: bool, salt: str = ""):
             ck.count("oracle:systematic-string")
         oracle_batch(ck, chunk, "unit")
         oracle_batch(ck, [{s: i} for i, s in enumerate(chunk)], "unit")
-    n_unit = 300 if quick_budget else 12000
+    n_unit = 1200 if quick_budget else 30000
     for _ in range(n_unit):
         batch = []
         for _ in range(12):
@@ -785,7 +808,7 @@ def search(ck, quick_budget: bool, salt: str = ""):
                 batch.append(v)
                 ck.count("oracle:unit-value")
         oracle_batch(ck, batch, "unit")
-    n_e2e = 40 if quick_budget else 1500
+    n_e2e = 150 if quick_budget else 3000
     for i in range(n_e2e):
         batch = []
         for _ in range(6):
@@ -802,6 +825,8 @@ def search(ck, quick_budget: bool, salt: str = ""):
 
 
 def oracle_batch_e2e(ck, v, route):
+    if getattr(ck, 'found_by_search', 0) >= MAX_VIOLATIONS:
+        return
     bad = judge(route, v)
     ck.evaluated()
     if bad is None:
@@ -811,6 +836,9 @@ def oracle_batch_e2e(ck, v, route):
         return judge(route, x) is not None
 
     small = shrink(v, fails)
+    ck.found_by_search = getattr(ck, 'found_by_search', 0) + 1
+    if not _fresh(ck, route, small):
+        return
     ck.violate({"route": route, "value": to_wire(small), "expected": tcanon(expected(small))}, judge(route, small) or bad)
 
 
